@@ -349,3 +349,37 @@ def settleEmissions (b0 : Bank) (bal0 : Balance) (now : Int) : Res (Bank × Bala
   .ok (b, { bal with emis := rest }, amt)
 
 end Mfi.Bank
+
+namespace Mfi.Bank
+open Mfi Mfi.Fx Mfi.Gen
+
+structure Collected where
+  feeI : Int        -- new outstanding buckets (bits)
+  feeG : Int
+  feeP : Int
+  toInsurance : Int -- whole tokens moved liquidity vault → insurance vault
+  toGroup : Int     -- → fee vault
+  toProgram : Int   -- → global fee wallet ATA
+  deriving DecidableEq, Repr
+
+/-- `lending_pool_collect_bank_fees` (the arithmetic and the three transfers); `vault` = liquidity
+    vault token amount. `x.int()` on a non-negative I80F48 is its floor. -/
+def collectFees (feeI feeG feeP vault : Int) : Res Collected := do
+  let avail0 := ofInt vault
+  let ti := Fx.int (min feeI avail0)
+  let feeI' ← math (sub? feeI ti)
+  let avail1 ← math (sub? avail0 ti)
+  let tg := Fx.int (min feeG avail1)
+  let feeG' ← math (sub? feeG tg)
+  let avail2 ← math (sub? avail1 tg)
+  let _ ← (if avail2 ≥ 0 then (.ok () : Res Unit) else .error .panic)
+  let g ← math (toU64? tg)
+  let i ← math (toU64? ti)
+  let tp := Fx.int (min feeP avail2)
+  let feeP' ← math (sub? feeP tp)
+  let avail3 ← math (sub? avail2 tp)
+  let _ ← (if avail3 ≥ 0 then (.ok () : Res Unit) else .error .panic)
+  let p ← math (toU64? tp)
+  .ok { feeI := feeI', feeG := feeG', feeP := feeP', toInsurance := i, toGroup := g, toProgram := p }
+
+end Mfi.Bank
